@@ -26,6 +26,14 @@ type c12Case struct {
 	OffsetMin int    `json:"offset_min"`
 	Message   string `json:"message"`
 	Parent    bool   `json:"parent"`
+	// the zone of the READING process, when it is not UTC: BeforeMin until the instant SwitchAt, AfterMin since
+	Reader *c12Reader `json:"reader,omitempty"`
+}
+
+type c12Reader struct {
+	BeforeMin int   `json:"before_min"`
+	AfterMin  int   `json:"after_min"`
+	SwitchAt  int64 `json:"switch_at"`
 }
 
 func runC12(c *c12Case) error {
@@ -42,6 +50,16 @@ func runC12(c *c12Case) error {
 	}
 	if s, err := gitfmt.ParseSign(line); err != nil || s.Offset != tz.Format(c.OffsetMin) || s.Secs != c.Secs {
 		return fmt.Errorf("independent parser rejects %q: %v", line, err)
+	}
+	if c.Reader != nil {
+		// what is read back is the stored instant and offset, whatever the rules of the reader's own zone are
+		loc, err := time.LoadLocationFromTZData("reader", tz.BytesSwitch(c.Reader.BeforeMin*60, c.Reader.AfterMin*60, c.Reader.SwitchAt))
+		if err != nil {
+			return fmt.Errorf("harness: reader zone: %v", err)
+		}
+		saved := time.Local
+		time.Local = loc
+		defer func() { time.Local = saved }()
 	}
 	tree := strings.Repeat("ab", 20)
 	data := fmt.Sprintf("tree %s\n", tree)
@@ -136,6 +154,31 @@ func TestC12API(t *testing.T) {
 			secs = []int64{1, 9, 10, 999999999, 1000000000, 1 << 31, 1<<31 - 1, 1 << 33}[rapid.IntRange(0, 7).Draw(rt, "edgeSecs")]
 		}
 		c := &c12Case{Name: genName.Draw(rt, "name"), Email: genEmail.Draw(rt, "email"), Secs: secs, OffsetMin: off, Message: genMessage(rt), Parent: rapid.Bool().Draw(rt, "parent")}
+		if i > len(offsets)/2 && rapid.IntRange(0, 2).Draw(rt, "readerZone") > 0 {
+			// the reading process lives in a zone with a transition; the interesting relation is
+			// "stored offset = the reader's offset today, and the commit is older (or younger) than the transition"
+			const past = 1750000000 // 2025: every transition drawn lies before the moment of the run
+			r := &c12Reader{AfterMin: off, BeforeMin: offsets[rapid.IntRange(0, len(offsets)-1).Draw(rt, "readerBefore")]}
+			switch rapid.IntRange(0, 3).Draw(rt, "readerRel") {
+			case 0: // the stored offset is the one the reader's zone had BEFORE its transition
+				r.AfterMin, r.BeforeMin = r.BeforeMin, off
+			case 1: // unrelated zone
+				r.AfterMin = offsets[rapid.IntRange(0, len(offsets)-1).Draw(rt, "readerAfter")]
+			}
+			if r.BeforeMin == r.AfterMin {
+				r.BeforeMin = offsets[(i+7)%len(offsets)]
+			}
+			c.Secs = rapid.Int64Range(1, past-2).Draw(rt, "secsPast")
+			if rapid.Bool().Draw(rt, "commitBeforeSwitch") {
+				r.SwitchAt = c.Secs + rapid.Int64Range(1, past-c.Secs).Draw(rt, "switchAfterCommit")
+			} else {
+				r.SwitchAt = rapid.Int64Range(0, c.Secs).Draw(rt, "switchBeforeCommit")
+			}
+			c.Reader = r
+			stats.LabelIf(r.AfterMin == off && r.SwitchAt > c.Secs, "reader-zone:stored offset = reader's offset today, commit older than the transition")
+			stats.LabelIf(r.BeforeMin == off, "reader-zone:stored offset = reader's former offset")
+		}
+		stats.LabelIf(c.Reader != nil, "reader-zone:with a transition")
 		stats.Eval()
 		stats.LabelIf(off < 0, "offset:negative")
 		stats.LabelIf(off%60 != 0, "offset:fractional-hour")
